@@ -53,37 +53,50 @@ private theorem bump_ctxCnt (s : RefState) (h : Holder) (d : Int) (c : Nat) :
     (s.bump h d).ctxCnt c = s.ctxCnt c + (if refsCtx c h = true then d else 0) := by
   cases h <;> simp only [bump, bumpRing, bumpCtx, refsCtx, decide_eq_true_eq] <;> (try split_ifs) <;> simp_all
 
-private theorem step_release_pos (s : RefState) (h : Holder) (hm : s.holders.contains h = true) :
-    s.step (.release h) = { (s.bump h (-1)) with holders := s.holders.erase h } := by
-  simp only [step, hm, if_true]
-private theorem step_release_neg (s : RefState) (h : Holder) (hm : ¬ s.holders.contains h = true) :
-    s.step (.release h) = s := by
-  simp only [step, hm, if_false]; rfl
+private theorem rel_pos (s : RefState) (h : Holder) (hm : s.holders.contains h = true) :
+    s.rel h = { (s.bump h (-1)) with holders := s.holders.erase h } := by
+  simp only [rel, hm, if_true]
+private theorem rel_neg (s : RefState) (h : Holder) (hm : ¬ s.holders.contains h = true) :
+    s.rel h = s := by
+  simp only [rel, hm, if_false]; rfl
+
+theorem inv_acq (s : RefState) (h : Holder) (hi : s.Inv) : (s.acq h).Inv ∧ (s.acq h).ctxRing = s.ctxRing := by
+  obtain ⟨h1, h2⟩ := hi
+  refine ⟨⟨fun r => ?_, fun c => ?_⟩, bump_ctxRing s h 1⟩
+  · show (s.bump h 1).ringCnt r = ((h :: s.holders).countP (touchesRing (s.bump h 1).ctxRing r) : Int)
+    rw [bump_ctxRing, bump_ringCnt, h1 r, List.countP_cons]
+    split_ifs <;> push_cast <;> omega
+  · show (s.bump h 1).ctxCnt c = ((h :: s.holders).countP (refsCtx c) : Int)
+    rw [bump_ctxCnt, h2 c, List.countP_cons]
+    split_ifs <;> push_cast <;> omega
+
+theorem inv_rel (s : RefState) (h : Holder) (hi : s.Inv) : (s.rel h).Inv ∧ (s.rel h).ctxRing = s.ctxRing := by
+  obtain ⟨h1, h2⟩ := hi
+  by_cases hm : s.holders.contains h = true
+  · rw [rel_pos s h hm]
+    have hmem : h ∈ s.holders := by simpa using hm
+    refine ⟨⟨fun r => ?_, fun c => ?_⟩, bump_ctxRing s h (-1)⟩
+    · show (s.bump h (-1)).ringCnt r = ((s.holders.erase h).countP (touchesRing (s.bump h (-1)).ctxRing r) : Int)
+      rw [bump_ctxRing, bump_ringCnt, h1 r, countP_erase_int _ _ _ hmem]
+      split_ifs <;> omega
+    · show (s.bump h (-1)).ctxCnt c = ((s.holders.erase h).countP (refsCtx c) : Int)
+      rw [bump_ctxCnt, h2 c, countP_erase_int _ _ _ hmem]
+      split_ifs <;> omega
+  · rw [rel_neg s h hm]; exact ⟨⟨h1, h2⟩, rfl⟩
 
 /-- one step preserves the invariant -/
 theorem inv_step (s : RefState) (op : RefOp) (hi : s.Inv) : (s.step op).Inv ∧ (s.step op).ctxRing = s.ctxRing := by
-  obtain ⟨h1, h2⟩ := hi
   cases op with
-  | acquire h =>
-    refine ⟨⟨fun r => ?_, fun c => ?_⟩, bump_ctxRing s h 1⟩
-    · show (s.bump h 1).ringCnt r = ((h :: s.holders).countP (touchesRing (s.bump h 1).ctxRing r) : Int)
-      rw [bump_ctxRing, bump_ringCnt, h1 r, List.countP_cons]
-      split_ifs <;> push_cast <;> omega
-    · show (s.bump h 1).ctxCnt c = ((h :: s.holders).countP (refsCtx c) : Int)
-      rw [bump_ctxCnt, h2 c, List.countP_cons]
-      split_ifs <;> push_cast <;> omega
-  | release h =>
-    by_cases hm : s.holders.contains h = true
-    · rw [step_release_pos s h hm]
-      have hmem : h ∈ s.holders := by simpa using hm
-      refine ⟨⟨fun r => ?_, fun c => ?_⟩, bump_ctxRing s h (-1)⟩
-      · show (s.bump h (-1)).ringCnt r = ((s.holders.erase h).countP (touchesRing (s.bump h (-1)).ctxRing r) : Int)
-        rw [bump_ctxRing, bump_ringCnt, h1 r, countP_erase_int _ _ _ hmem]
-        split_ifs <;> omega
-      · show (s.bump h (-1)).ctxCnt c = ((s.holders.erase h).countP (refsCtx c) : Int)
-        rw [bump_ctxCnt, h2 c, countP_erase_int _ _ _ hmem]
-        split_ifs <;> omega
-    · rw [step_release_neg s h hm]; exact ⟨⟨h1, h2⟩, rfl⟩
+  | acquire h => exact inv_acq s h hi
+  | release h => exact inv_rel s h hi
+  | retarget c c' =>
+    show (if s.holders.contains (.extPoly c) then (s.rel (.extPoly c)).acq (.extPoly c') else s).Inv ∧
+      (if s.holders.contains (.extPoly c) then (s.rel (.extPoly c)).acq (.extPoly c') else s).ctxRing = s.ctxRing
+    split_ifs
+    · obtain ⟨i1, e1⟩ := inv_rel s (.extPoly c) hi
+      obtain ⟨i2, e2⟩ := inv_acq _ (.extPoly c') i1
+      exact ⟨i2, e2.trans e1⟩
+    · exact ⟨hi, rfl⟩
 
 /-- every reachable state satisfies the invariant -/
 theorem C19_refs (cr : Nat → Nat) (ops : List RefOp) : (run (init cr) ops).Inv := by
@@ -123,6 +136,13 @@ theorem C19_freed_iff (cr : Nat → Nat) (ops : List RefOp) (r c : Nat) :
 
 /-! non-vacuity: a history in which a ring outlives its creator handle through a context holder -/
 example : (run (init (fun _ => 0)) [.acquire (.ringHandle 0), .acquire (.ctxHandle 1), .release (.ringHandle 0)]).ringCnt 0 = 1 := by
+  decide
+
+/-- an external polynomial re-used as the output of an operation on another context moves its reference: the old
+    context (held by nobody else) is freed, the new one gains a holder -/
+example : let s := run (init (fun c => c)) [.acquire (.ctxHandle 0), .acquire (.ctxHandle 1), .acquire (.extPoly 0),
+      .release (.ctxHandle 0), .retarget 0 1]
+    s.ctxCnt 0 = 0 ∧ s.ctxCnt 1 = 2 ∧ s.ringCnt 0 = 0 ∧ s.ringCnt 1 = 2 := by
   decide
 
 end RefState
